@@ -767,7 +767,9 @@ impl JobServerHandle {
             if got_token {
                 return Ok(());
             }
-            backoff *= 2;
+            // Capped: doubling for ever overflows Duration (a panic) after about a
+            // minute of waiting for a token.
+            backoff = cmp::min(backoff * 2, Duration::from_secs(1));
             {
                 let has_token = {
                     let state = self.state.borrow();
